@@ -30,6 +30,8 @@ impl InterfaceInner {
 #[allow(unsafe_code)] // ghost record of the stubbed parser result (static mut)
 mod kani_c18 {
     use super::*;
+    use heapless::Vec as HVec;
+    use std::vec::Vec; // the glob-imported heapless Vec would break the driver's injected playback tests
     use crate::wire::EthernetAddress;
 
     const MAC: EthernetAddress = EthernetAddress([2, 0, 0, 0, 0, 1]);
@@ -48,8 +50,8 @@ mod kani_c18 {
             _ => DhcpMessageType::Unknown(kani::any()),
         }
     }
-    fn any_dns() -> Vec<Ipv4Address, DHCP_MAX_DNS_SERVER_COUNT> {
-        let mut v = Vec::new();
+    fn any_dns() -> HVec<Ipv4Address, DHCP_MAX_DNS_SERVER_COUNT> {
+        let mut v = HVec::new();
         let n: usize = kani::any();
         for i in 0..DHCP_MAX_DNS_SERVER_COUNT { if i < n { v.push(any_v4()).ok(); } }
         v
